@@ -303,6 +303,9 @@ class Simulator(EventProducer, SimulatorInterface, Generic[TIME]):
         self._replication = replication
         self._model = model
         self._simulator_time = replication.start_sim_time
+        # the statistics of a previous replication are rebuilt (and 
+        # registered again under their keys) by construct_model 
+        model.output_statistics().clear()
         model.construct_model()
         self._run_state = RunState.INITIALIZED
         self._replication_state = ReplicationState.INITIALIZED
